@@ -17,7 +17,40 @@ func (x *Exec) contractOf(f *ssa.Function) *FuncContract {
 	if f == nil {
 		return nil
 	}
-	return x.p.Ctr.Funcs[x.p.Names[f]]
+	return x.p.effectiveContract(f)
+}
+
+// effectiveContract: the function's own contract; a method implementing a contracted interface
+// method without a frame of its own inherits that contract's frame.
+func (p *Program) effectiveContract(f *ssa.Function) *FuncContract {
+	if p.effC == nil {
+		p.effC = map[*ssa.Function]*FuncContract{}
+	}
+	if c, ok := p.effC[f]; ok {
+		return c
+	}
+	fc := p.Ctr.Funcs[p.Names[f]]
+	res := fc
+	if recv := f.Signature.Recv(); recv != nil && (fc == nil || (!fc.HasMod && len(fc.Preserves) == 0)) {
+		for key, ic := range p.Ctr.Ifaces {
+			i := strings.LastIndex(key, ".")
+			if key[i+1:] != f.Name() || (!ic.HasMod && len(ic.Preserves) == 0) {
+				continue
+			}
+			it := p.lookupType(key[:i])
+			if it == nil || !types.Implements(recv.Type(), it.Underlying().(*types.Interface)) {
+				continue
+			}
+			if fc == nil {
+				continue // callers fall back to the interface contract semantics only when a block exists
+			}
+			cp := *fc
+			cp.HasMod, cp.Modifies, cp.Preserves = ic.HasMod, ic.Modifies, ic.Preserves
+			res = &cp
+		}
+	}
+	p.effC[f] = res
+	return res
 }
 
 // execCall returns true when it has taken over control flow (resume is called from inside).
@@ -599,6 +632,9 @@ func (x *Exec) applyContract(s *State, in *ssa.Call, fc *FuncContract, callee *s
 		if cl.Kind == "ensures-assumed" && !streams && cl.Label != "deterministic" && cl.Label != "client-loader" {
 			continue
 		}
+		if ps, excl := cl.exclusive(); excl && !hasProp(ps, x.prop) {
+			continue
+		}
 		t, err := env.evalBool(cl.Expr)
 		if err != nil {
 			x.unsupported("ensures of %s: %v", fc.Key, err)
@@ -688,7 +724,18 @@ func (x *Exec) callFrameCheck(s *State, in *ssa.Call, callee *FuncContract, env 
 				x.oblige(s, "frame", "call:"+site+":"+m, Bool(!patternsOverlap(me.Preserves, k)), in.Pos(), nil)
 			} else if i := strings.LastIndex(m, "."); i > 0 {
 				// field of some object: only a problem if that field heap is one I preserve
-				x.oblige(s, "frame", "call:"+site+":"+m, Bool(!fieldMayMatch(me.Preserves, m[i+1:])), in.Pos(), nil)
+				bad := fieldMayMatch(me.Preserves, m[i+1:])
+				if env != nil {
+					if v, err := env.evalVal(m[:i]); err == nil && v.typ != nil {
+						if pt, ok := v.typ.Underlying().(*types.Pointer); ok {
+							bad = keyMatches(me.Preserves, "F:"+typeStr(pt.Elem())+"."+m[i+1:])
+							if m[i+1:] == "*" {
+								bad = patternsOverlap(me.Preserves, "F:"+typeStr(pt.Elem())+".*")
+							}
+						}
+					}
+				}
+				x.oblige(s, "frame", "call:"+site+":"+m, Bool(!bad), in.Pos(), nil)
 			}
 		}
 		return
@@ -771,6 +818,33 @@ func (x *Exec) preserveOtherGhosts(s *State, pre map[string]T, recv T) {
 		if v.K == vScalar && v.T.Sort == SIface && !seen[v.T.S] {
 			seen[v.T.S] = true
 			others = append(others, v.T)
+		}
+	}
+	// so are the query values a closure captured
+	if len(s.frames) > 0 {
+		rf := s.frames[0]
+		for _, fv := range rf.fn.FreeVars {
+			et := fv.Type().(*types.Pointer).Elem()
+			if x.sortOf(et) != SIface || isSlice(et) {
+				continue
+			}
+			cell, ok := rf.env[fv]
+			if !ok || cell.K != vScalar {
+				continue
+			}
+			key := cellKey(et)
+			if cell.Key != "" {
+				key = cell.Key
+			}
+			arr, ok := pre[key]
+			if !ok {
+				arr = x.heapSym(s, key, SArray(SInt, SIface))
+			}
+			cv := Select(arr, cell.T, SIface)
+			if !seen[cv.S] {
+				seen[cv.S] = true
+				others = append(others, cv)
+			}
 		}
 	}
 	// query-valued fields of the receiver of the method under verification are operands too
